@@ -743,4 +743,75 @@ Proof.
   exact (S_all WA WB H1 H2 lvsA lvsB H3 H4 H5 H6 H7 fm (length lvsA - i) i lvA lvB (le_n _) HiA HiB dA dB stA stB ws fdA fdB HdA HdB HsA HsB Hfd).
 Qed.
 
+
+(* ------------------------------------------------------------------ *)
+(* the views the model builds *)
+From PasfmtVerif Require Import Proofs.WrapEventsProofs.
+
+Lemma line_types_sim ttA ttB : (forall g, option_map ti_ty (ti_get ttA g) = option_map ti_ty (ti_get ttB g)) ->
+  forall toks, line_types ttA toks = line_types ttB toks.
+Proof.
+  intros Hty. induction toks as [|g r IHt]; [reflexivity|]. cbn [line_types]. specialize (Hty g).
+  destruct (ti_get ttA g), (ti_get ttB g); cbn [option_map] in Hty; try discriminate; [|reflexivity]. injection Hty as ->. rewrite IHt. reflexivity.
+Qed.
+
+Lemma mk_recs_sim ttA ttB kids li : (forall g, option_map ti_ty (ti_get ttA g) = option_map ti_ty (ti_get ttB g)) ->
+  forall toks prevtok win stacks, Forall2 rec_sim (mk_recs ttA toks prevtok win stacks kids li) (mk_recs ttB toks prevtok win stacks kids li).
+Proof.
+  intros Hty. induction toks as [|g r IHt]; intros prevtok win stacks; cbn [mk_recs]; [constructor|].
+  rewrite !(Hty g), !(Hty (g - 1)). constructor; [|apply IHt].
+  unfold rec_sim. cbn [tr_gidx tr_ty tr_win tr_fprev tr_inv tr_stk tr_kids]. repeat split.
+  destruct (assoc_find (li, g) kids) as [[[pt ls] dc]|]; [|reflexivity]. rewrite (Hty pt). reflexivity.
+Qed.
+
+Theorem mk_lviews_view_sim infosA infosB lines : map ti_ty infosA = map ti_ty infosB ->
+  Forall2 view_sim (mk_lviews infosA lines) (mk_lviews infosB lines).
+Proof.
+  intros Hty. unfold mk_lviews.
+  assert (Hg : forall g, option_map ti_ty (ti_get (ti_build infosA 0 PLeaf) g) = option_map ti_ty (ti_get (ti_build infosB 0 PLeaf) g)).
+  { intros g. rewrite !ti_get_infos, <- !nth_error_map, Hty. reflexivity. }
+  generalize (get_line_children (map iline_of lines)) 0%nat. intros kids.
+  induction (map iline_of lines) as [|l r IHl]; intros i; [constructor|]. cbn [mk_lviews_from]. constructor; [|apply IHl].
+  unfold view_sim, mk_lview. cbn [lv_idx lv_type lv_level lv_gtoks lv_recs]. repeat split.
+  rewrite (line_types_sim _ _ Hg). apply mk_recs_sim. exact Hg.
+Qed.
+
+Lemma mk_recs_kids_fun tt kids li : forall toks prevtok win stacks r, In r (mk_recs tt toks prevtok win stacks kids li) ->
+  tr_kids r = match assoc_find (li, tr_gidx r) kids with
+              | Some (pt, ls, dc) => Some (mkLCh pt (option_map ti_ty (ti_get tt pt)) (rev ls) dc)
+              | None => None
+              end.
+Proof.
+  induction toks as [|g rest IHt]; intros prevtok win stacks r H; [destruct H|]. cbn [mk_recs] in H. destruct H as [<-|H]; [|exact (IHt _ _ _ r H)].
+  cbn [tr_kids tr_gidx]. destruct (assoc_find (li, g) kids) as [[[pt ls] dc]|]; reflexivity.
+Qed.
+
+Theorem mk_lviews_fun infos lines : forall k lv, nth_error (mk_lviews infos lines) k = Some lv -> view_fun lv.
+Proof.
+  unfold mk_lviews. generalize (ti_build infos 0 PLeaf) (get_line_children (map iline_of lines)) 0%nat. intros tt kids.
+  induction (map iline_of lines) as [|l r IHl]; intros i k lv H; [destruct k; discriminate|].
+  cbn [mk_lviews_from] in H. destruct k as [|k]; cbn [nth_error] in H; [|exact (IHl (S i) k lv H)].
+  injection H as <-. intros r1 r2 H1 H2 Hg. cbn [mk_lview lv_recs] in H1, H2.
+  rewrite (mk_recs_kids_fun _ _ _ _ _ _ _ r1 H1), (mk_recs_kids_fun _ _ _ _ _ _ _ r2 H2), Hg. reflexivity.
+Qed.
+
+(* on the model's own views: same lines, same token types, any lengths, any indentation string lengths *)
+Corollary solve_inf_sim_views WA WB infosA infosB lines fm :
+  w_iter WA = w_iter WB -> w_bbb WA = w_bbb WB -> parents_ok lines = true -> map ti_ty infosA = map ti_ty infosB ->
+  forall i lvA lvB dA dB stA stB ws fdA fdB,
+    nth_error (mk_lviews infosA lines) i = Some lvA -> nth_error (mk_lviews infosB lines) i = Some lvB ->
+    (length lines - i < dA)%nat -> (length lines - i < dB)%nat ->
+    sound WA (mk_lviews infosA lines) fm stA -> sound WB (mk_lviews infosB lines) fm stB -> fd_sim fdA fdB ->
+    sound WA (mk_lviews infosA lines) fm (fst (solve_inf WA (mk_lviews infosA lines) fm dA stA lvA ws fdA))
+    /\ sound WB (mk_lviews infosB lines) fm (fst (solve_inf WB (mk_lviews infosB lines) fm dB stB lvB ws fdB))
+    /\ option_map erase (snd (solve_inf WA (mk_lviews infosA lines) fm dA stA lvA ws fdA))
+       = option_map erase (snd (solve_inf WB (mk_lviews infosB lines) fm dB stB lvB ws fdB)).
+Proof.
+  intros H1 H2 Hp Hty i lvA lvB dA dB stA stB ws fdA fdB HiA HiB HdA HdB HsA HsB Hfd.
+  apply (solve_inf_sim WA WB _ _ fm H1 H2 (mk_lviews_view_sim _ _ lines Hty) (mk_lviews_wf infosA lines Hp) (mk_lviews_wf infosB lines Hp)
+           (mk_lviews_fun infosA lines) (mk_lviews_fun infosB lines) i lvA lvB dA dB stA stB ws fdA fdB HiA HiB); try assumption;
+    rewrite mk_lviews_length; assumption.
+Qed.
+
 Print Assumptions solve_inf_sim.
+Print Assumptions solve_inf_sim_views.
